@@ -63,6 +63,8 @@ pub enum TransportCall {
 /// Transport whose answers are chosen by the harness: `decide(call)` returns whether the call succeeds.
 struct ScriptedTransport {
     decide: Box<dyn FnMut(TransportCall) -> bool + Send>,
+    /// peer the last `dial` would authenticate the remote against (as parsed by the TCP address parser)
+    dialed_peer: Option<PeerId>,
 }
 
 impl ScriptedTransport {
@@ -77,7 +79,14 @@ impl Stream for ScriptedTransport {
 }
 
 impl Transport for ScriptedTransport {
-    fn dial(&mut self, connection_id: ConnectionId, _address: Multiaddr) -> crate::Result<()> { self.answer(TransportCall::Dial(connection_id)) }
+    fn dial(&mut self, connection_id: ConnectionId, address: Multiaddr) -> crate::Result<()> {
+        // like the real TCP transport: the only way `dial` fails is the address not parsing
+        use crate::transport::common::listener::{GetSocketAddr, TcpAddress};
+        let (_, peer) = TcpAddress::multiaddr_to_socket_address(&address)?;
+        self.dialed_peer = peer;
+        let _ = (self.decide)(TransportCall::Dial(connection_id));
+        Ok(())
+    }
     fn accept(&mut self, connection_id: ConnectionId) -> crate::Result<BoxFuture<'static, crate::Result<()>>> {
         self.answer(TransportCall::Accept(connection_id))?;
         Ok(Box::pin(async { Ok(()) }))
@@ -85,13 +94,17 @@ impl Transport for ScriptedTransport {
     fn accept_pending(&mut self, connection_id: ConnectionId) -> crate::Result<()> { self.answer(TransportCall::AcceptPending(connection_id)) }
     fn reject_pending(&mut self, connection_id: ConnectionId) -> crate::Result<()> { self.answer(TransportCall::RejectPending(connection_id)) }
     fn reject(&mut self, connection_id: ConnectionId) -> crate::Result<()> { self.answer(TransportCall::Reject(connection_id)) }
-    fn open(&mut self, connection_id: ConnectionId, _addresses: Vec<Multiaddr>) -> crate::Result<()> { self.answer(TransportCall::Open(connection_id)) }
+    fn open(&mut self, connection_id: ConnectionId, _addresses: Vec<Multiaddr>) -> crate::Result<()> {
+        // the real transports never refuse `open`
+        let _ = (self.decide)(TransportCall::Open(connection_id));
+        Ok(())
+    }
     fn negotiate(&mut self, connection_id: ConnectionId) -> crate::Result<()> { self.answer(TransportCall::Negotiate(connection_id)) }
     fn cancel(&mut self, connection_id: ConnectionId) { let _ = (self.decide)(TransportCall::Cancel(connection_id)); }
 }
 
 pub fn register_scripted_tcp(manager: &mut TransportManager, decide: Box<dyn FnMut(TransportCall) -> bool + Send>) {
-    manager.register_transport(SupportedTransport::Tcp, Box::new(ScriptedTransport { decide }));
+    manager.register_transport(SupportedTransport::Tcp, Box::new(ScriptedTransport { decide, dialed_peer: None }));
 }
 
 fn noop_waker() -> std::task::Waker {
